@@ -13,6 +13,16 @@ CLAIMED = {
         "technique": "machine-checked proof in Rocq (Coq 8.16) over an executable Gallina model + differential correspondence check and table regeneration",
         "design": "DESIGN.md §7 C01",
     },
+    "C02": {
+        "text": "PARTIAL. Rocq theorems: C02_tables (every (key, option) pair of the look-up tables regenerated from convert.rs is the documented pair of the documented kind; finite), and frame theorems "
+                "for the three table-driven handlers (C02_strings_frame, C02_bools_frame, C02_all_strings_frame: a first assignment of key K adds exactly [option; value] / the on-off form at K's slot and "
+                "the groups of all other keys are unchanged; arbitrary tables, units and values), plus kernel-checked witnesses of the two repaired defects over the full container converter. The special "
+                "handlers, word-list and name=value kinds, and the whole-command clauses (nothing else changes, global options before the sub-command, PodmanArgs after the key options, object then Exec last) "
+                "are decided by the direct metamorphic oracle on implementation output (with/without the key, all 7 types) plus whole-service correspondence with the converter model.",
+        "note": "Trusted: Coq kernel; tools/docs.py / Spec/Docs.v as the documentation transcript; the converter model; extraction; driver; Mount= modelled only on the csv crate's quote-free domain.",
+        "technique": "machine-checked proof in Rocq (Coq 8.16) of table equalities and handler frame theorems; metamorphic oracle and differential correspondence for the whole command",
+        "design": "DESIGN.md §7 C02",
+    },
     "C03": {
         "text": "Rocq theorem C03_parse_render over the one-character-per-step model of the whole parser: for every file model and EVERY rendering of it in the independent layout "
                 "relation Renders (comment/blank lines anywhere, indentation, blanks around '=', trailing blanks, blanks after headers, any blank of a value written as a backslash-newline "
